@@ -115,6 +115,34 @@ S2OnEdge(p, d2)  == S2EdgeL(p, d2) = S2EdgeR(p)
 S2Prep(q) == [d |-> q.d, H |-> q.H, ppp |-> q.ppp, S |-> q.S, pos |-> q.pos, types |-> q.types, sig |-> q.sig,
               rn |-> q.rn, rd |-> q.rd, nd |-> q.nd,
               rt |-> LoTable(q.H, q.ppp, q.pos), tt |-> LoTieTable(q.H, q.ppp, q.pos)]
+\* Scale: on a full single-species lattice in an orthogonal, fully periodic cell every particle has the same environment
+\* (S2LatticeEnvironments, checked by TLC on small lattices in MC_LocalOrder), so ONE row of the tables decides all
+\* particles: S2PrepOne builds row 1 only (linear in N).  Used by the trace specification for lattices of more than a
+\* thousand particles, where one particle has more than 1024 neighbours inside r_max.
+S2PrepOne(q) ==
+  LET adj == Adj(q.H)  det == Det(q.H)  n == Len(q.pos)
+      row == [j \in 1..n |-> IF j = 1 THEN Zero(q.d) ELSE LoImg(q.H, adj, det, VSub(q.pos[j], q.pos[1]), q.ppp)]
+      tie == [j \in 1..n |-> j # 1 /\ LoTie(adj, det, VSub(q.pos[j], q.pos[1]), q.ppp)]
+  IN  [d |-> q.d, H |-> q.H, ppp |-> q.ppp, S |-> q.S, pos |-> q.pos, types |-> q.types, sig |-> q.sig,
+       rn |-> q.rn, rd |-> q.rd, nd |-> q.nd,
+       rt |-> [i \in 1..n |-> IF i = 1 THEN row ELSE << >>], tt |-> [i \in 1..n |-> IF i = 1 THEN tie ELSE << >>]]
+S2LatSites(n, a) ==
+  IF Len(n) = 2 THEN {<<a * i, a * j>> : i \in 0..(n[1] - 1), j \in 0..(n[2] - 1)}
+  ELSE {<<a * i, a * j, a * k>> : i \in 0..(n[1] - 1), j \in 0..(n[2] - 1), k \in 0..(n[3] - 1)}
+S2IsLattice(r) ==
+  /\ "lat" \in DOMAIN r /\ Len(r.fr) = 1 /\ "Hs" \notin DOMAIN r /\ "tys" \notin DOMAIN r /\ "fr0" \notin DOMAIN r
+  /\ Len(r.lat.n) = r.d /\ r.savegr = FALSE
+  /\ \A k \in 1..r.d : r.ppp[k] = 1 /\ \A j \in 1..r.d : r.H[k][j] = (IF j = k THEN r.lat.n[k] * r.lat.a ELSE 0)
+  /\ \A i \in 1..Len(r.types) : r.types[i] = 1
+  /\ Len(r.fr[1]) = ProdSeq(r.lat.n) /\ {r.fr[1][i] : i \in 1..Len(r.fr[1])} = S2LatSites(r.lat.n, r.lat.a)
+\* every particle of the lattice sees the same bag of squared minimum-image distances (and no half-cell tie matters in
+\* an orthogonal cell): the environment of particle 1 is the environment of all
+S2LatticeEnvironments(p) ==
+  LET others(i) == {j \in 1..S2N(p) : j # i}
+      vals(i)   == {Norm2(p.rt[i][j]) : j \in others(i)}
+      bag(i)    == [v \in vals(i) |-> Cardinality({j \in others(i) : Norm2(p.rt[i][j]) = v})]
+  IN  \A i \in 2..S2N(p) : bag(i) = bag(1)
+
 S2D2(p, i, j)    == Norm2(p.rt[i][j])
 \* the neighbours that contribute to g_i, in id order
 S2Contrib(p, i)  == SelectSeq(LoOthers(S2N(p), i), LAMBDA j : S2InRange(p, S2D2(p, i, j)))
